@@ -383,9 +383,17 @@ func SpecMatch(pattern string, hasWild bool, s string) bool {
 //@   loop 2 invariant forall k string :: !visited2[k] || !has(props, k) ==> has(m, k) == has(rs.model.Values, k) && m[k] == rs.model.Values[k]
 //@   loop 2 invariant forall k string :: visited2[k] && has(props, k) && props[k].Type == codec.ValueTypeDelete ==> !has(m, k) && has(rs.model.Values, k)
 //@   loop 2 invariant forall k string :: visited2[k] && has(props, k) && props[k].Type != codec.ValueTypeDelete ==> has(m, k) && m[k] == props[k]
+// handleEventDelete: the resource leaves its cache entry, every subscriber gives back exactly
+// its use of the entry, and each of them is handed the delete event exactly once.
 //@ func (*ResourceSubscription).handleEventDelete
-//@   trusted
-//@   requires rs != nil && r != nil
+//@   requires rs != nil && r != nil && rs.e != nil && rs.e.cache != nil
+//@   assumes (rs.e.links == nil || rs.e.links != rs.e.queries) && (forall sb Subscriber :: has(rs.subs, sb) ==> sb != nil)
+//@   ensures[C09,C12] rs.subs == nil && rs.e.count == old(rs.e.count) - old(card(rs.subs)) && (rs.query == "" ==> rs.e.base == nil) && (rs.query != "" ==> !has(rs.e.queries, rs.query))
+//@   ensures[C01,C12] callcount("Event") == old(callcount("Event")) + old(card(rs.subs))
+//@   assert[C01] sub.Event#1: arg0 == r
+//@   safety[C15]
+//@   loop 1 invariant callcount("Event") == old(callcount("Event")) + iters1 && rs.subs == nil && rs.e.count == old(rs.e.count) - old(card(rs.subs)) && card(subs) == old(card(rs.subs))
+//@   loop 1 invariant (rs.query == "" ==> rs.e.base == nil) && (rs.query != "" ==> !has(rs.e.queries, rs.query)) && (forall sb Subscriber :: has(subs, sb) ==> sb != nil)
 
 // handleEvent: an event for a resource that is not loaded is dropped (except reaccess); while a
 // reset re-fetch is running, state events are dropped; an event that its handler rejects reaches
